@@ -177,7 +177,7 @@ pub fn tracker_stats(world: &World) -> Option<TrackerStats> {
             .collect(),
         component_tokens: t
             .pushed_component_from_network
-            .iter()
+            .keys()
             .map(|c| (c.id, c.name.clone()))
             .collect(),
         handle_tokens: t
